@@ -605,6 +605,8 @@ def _frac_cell(ctx, mname, kind):
 def r6_fraction(ctx):
     sn, sd, on, od, o0, o1, k = (Term.sym(x) for x in ("sn", "sd", "on", "od", "o0", "o1", "k"))
     r0, r1 = Term.sym("<Fraction._ratio(other)>[0]"), Term.sym("<Fraction._ratio(other)>[1]")
+    from .. import symexpr as _sx
+    _sx.EXPECTED_OPAQUE.update({"<Fraction._ratio(other)>[0]", "<Fraction._ratio(other)>[1]"})
     one = Term.const(1)
     exp = {
         "__add__": {"Fraction": (sn * od + on * sd, sd * od), "tuple": (sn * o1 + o0 * sd, sd * o1), "int": (sn + k * sd, sd)},
